@@ -573,12 +573,7 @@ func (g *gen) applyModifies(fc *FuncContract, args []Val, argTypes []types.Type,
 				g.unsupported = append(g.unsupported, fmt.Sprintf("contract: %s: modifies %s names no parameter", fc.Key, m))
 			}
 		case m == "*":
-			for _, c := range g.ctx.sortedComps() {
-				if c == "alloctop" {
-					continue
-				}
-				g.havocComp(st, c)
-			}
+			g.havocAll(st)
 		case g.cs.GhostVars[m] != "":
 			g.havocComp(st, g.ghostComp(m))
 		default:
